@@ -25,6 +25,11 @@ func parallelEngine(c *Ctx) *Engine {
 
 func runC07(c *Ctx) {
 	R := c.R
+	// shared clauses: the merge's result is cut at the lowest destination answer (R03.6, with C03), and what the receiver skips
+	// as "no packet / bad packet" is exactly the two retryable types found through errors.As (R09.2, with C09) – a wrapped
+	// no-packet error taken for fatal discards every reply already merged
+	checkClipSearch(c)
+	checkRetryablePredicate(c)
 	e := parallelEngine(c)
 	if e == nil {
 		R.Fail("R07.1", "common.TracerouteParallel#anchor", 0, "", "no engine with goroutines and an update closure found: anchor lost")
